@@ -220,11 +220,21 @@ class HashRules:
         if v[0] == 'shr' and v[2] % 8 == 0:
             r = rng(v, symr)
             if r is not None and r[1] <= 255:
-                return ('byte', v[1], v[2] // 8)
-        if v[0] == 'l':
+                v = ('byte', v[1], v[2] // 8)
+        elif v[0] == 'l':
             r = rng(v, symr)
             if r is not None and 0 <= r[0] and r[1] <= 255 and not pure_byte_sym(v, symr):
-                return ('byte', v, 0)
+                v = ('byte', v, 0)
+        if v[0] == 'byte' and v[1][0] in ('l', 'c'):
+            # one canonical form for "byte i of V": while V = 256*V' + r with a constant r in [0,256), byte i of V is byte i-1 of V'
+            V, i = v[1], v[2]
+            while i > 0:
+                pa = lin_parts(V)
+                if pa is None or any(c % 256 for c in pa[1].values()) or pa[0] < 0:
+                    break
+                V = L(pa[0] // 256, {s_: c // 256 for s_, c in pa[1].items()})
+                i -= 1
+            v = ('byte', V, i)
         return v
 
     # ------------------------------------------------------------------ R07.f output order
@@ -841,6 +851,11 @@ def buffer_simulation(self, tier='quick'):
                         q = I.ptr_add(st, dst, C(t))        # byte t from dst (rows of a two-dimensional member array carry over)
                         st.mem[(q[1], q[2])] = fsym[pos + t]
                 st.comps[('cfpos', root)] = pos + k
+                # the concrete file: the end-of-file indicator is set exactly by a short read, there is no error
+                if k < want:
+                    st.comps[('feof', root)] = C(1)
+                elif st.comps.get(('feof', root)) is None:
+                    st.comps[('feof', root)] = C(0)
                 return [(st, C(k))]
 
             I = interp.Interp(prog, models=dict(models.STD_MODELS))
